@@ -496,6 +496,36 @@ def t_enums(ctx, res):
               "; ".join(problems[:4]))
 
 
+REF_ATTRS = set()      # attribute names the dump writers emit through id_string (filled by t_writers on every run)
+
+
+def t_containers(ctx, res):
+    """the <containers> section is written from a collection that cannot hold a container twice: a std::set, or a vector that is
+    sorted before std::unique (fail closed; the ORDER of the elements is C29's matter, F29b)"""
+    src = c14_writers.strip_comments(open(os.path.join(core.REPO, "lib", "tokenize.cpp"), encoding="utf-8", errors="replace").read())
+    body = c14_writers.body_of(src, r"void\s+Tokenizer::dump\s*\(std::ostream\s*&out\)\s*const\s*\{") or ""
+    why = []
+    decl = re.search(r"std::(set|vector)<const Library::Container\s*\*>\s+containers;", body)
+    nolit = re.sub(r'"(?:[^"\\]|\\.)*"', '""', body)
+    uses = [re.sub(r"\s+", " ", u) for u in re.findall(r"\bcontainers\b[^;{]*[;{]", nolit)]
+    if not decl:
+        why.append("declaration of `containers` not recognised")
+    elif decl.group(1) == "set":
+        allowed = [r"^containers;$", r"^containers\.insert\(tok->valueType\(\)->container\);$", r"^containers\.erase\(nullptr\);$",
+                   r"^containers\.empty\(\)\) \{$", r"^containers\) \{$"]
+        for u in uses:
+            if not any(re.match(a, u) for a in allowed):
+                why.append("unrecognised use of the set: " + u[:80])
+    else:
+        flat = re.sub(r"\s+", " ", body)
+        m = re.search(r"std::sort\(containers\.begin\(\), containers\.end\(\)[^;]*\); containers\.erase\(std::unique\(containers\.begin\(\), containers\.end\(\)\), containers\.end\(\)\);", flat)
+        if not m:
+            why.append("`containers` is a vector that is not de-duplicated by std::sort followed by erase(std::unique(...))")
+    if not re.search(r"for \(const Library::Container\s*\* ?c ?: containers\)", body):
+        why.append("<container> loop over `containers` not found")
+    res.oblig("T-containers:containers-section-written-from-a-duplicate-free-collection", not why, "translation", "; ".join(why))
+
+
 def t_writers(ctx, res):
     try:
         writers, unknown, missing = c14_writers.scan(core.REPO)
@@ -513,6 +543,8 @@ def t_writers(ctx, res):
     res.oblig("T-writers:dump-attribute-writers", ok, "translation",
               "" if ok else "unknown shapes: %s | functions not found: %s | raw writers not in the reviewed list: %s" % (unknown[:4], missing, new_raw))
     # every attribute written through id_string is an id definition or a reference the dump checker resolves
+    REF_ATTRS.clear()
+    REF_ATTRS.update(a for (_f, a, _e, k) in writers if k == "id" and a and a != "id")
     known = set(a for (_e, a) in c14_dump.REFS) | {"id"}
     unk_ref = sorted(set((f, a) for (f, a, _e, k) in writers if k == "id" and a not in known))
     res.oblig("T-refs:every-id-attribute-is-resolved-by-the-dump-check", not unk_ref and kinds.get("id", 0) >= 30, "translation",
@@ -627,6 +659,11 @@ def gen_stmt(rng, cpp, d=0):
         return "switch (%s) { case 1: %s break; default: break; }" % (gen_expr(rng, 2), gen_stmt(rng, cpp, d + 1))
     if r < 0.8:
         return "return %s;" % gen_expr(rng)
+    if cpp and r < 0.84:
+        k = rng.randrange(9)
+        return ("std::string s%d = %s; std::vector<int> u%d; std::map<int, std::string> m%d; u%d.push_back((int)s%d.size()); "
+                "s%d += m%d[u%d.empty() ? 0 : u%d[0]]; u%d.resize(s%d.length() + m%d.size());" %
+                (k, rng.choice(STRS[:3]), k, k, k, k, k, k, k, k, k, k, k))
     if cpp and r < 0.86:
         return "std::vector<std::pair<int, std::vector<%s>>> w%d; w%d.push_back({});" % (rng.choice(["int", "T1", "char"]), rng.randrange(9), rng.randrange(9))
     if cpp and r < 0.91:
@@ -650,7 +687,9 @@ def gen_program(rng):
     if rng.random() < 0.5:
         L.append("typedef int (*fp_t)(int, char *);")
     if cpp:
-        L.append("#include <vector>")
+        L.append("#include <vector>\n#include <string>\n#include <map>")
+        L.append("std::size_t total(const std::string &name, const std::vector<int> &ids, const std::string &suffix, const std::map<int, int> &mm) "
+                 "{ return name.size() + ids.size() + suffix.size() + mm.size() + name.length(); }")
         L.append("template<class T> struct S { T v; T get() const { return v; } };")
         L.append("template<class T> struct B { T b; }; template<class T> struct A { T a; };")
         if rng.random() < 0.6:
@@ -763,7 +802,7 @@ def run_cases(ctx, res, cases, label):
                 res.count("cli:no-dump-file")
                 res.case("cli|" + c["name"], False)
                 continue
-            st, problems = c14_dump.check_dump(dump, cd)
+            st, problems = c14_dump.check_dump(dump, cd, REF_ATTRS or None)
             for (tag, attr, want) in (c.get("expect_attr") or []):
                 try:
                     import xml.etree.ElementTree as ET
@@ -862,6 +901,7 @@ def run(ctx, res):
     t_callers(ctx, res)
     t_link_writers(ctx, res)
     t_var_refs(ctx, res)
+    t_containers(ctx, res)
     t_writers(ctx, res)
     res.assumptions += ASSUMPTIONS
     drv = ctx.driver("drv_c14")
